@@ -41,10 +41,11 @@ const (
 	ocBuilt                // assembled locally, order unknown (site G)
 	ocSBuilt               // assembled by a sorted-producing operation (site G)
 	ocDesc                 // group G sorted in DESCENDING order
+	ocConcat               // a sorted list with another sorted list appended behind it (site G): two ascending runs, not one
 )
 
 func (k ocKind) String() string {
-	return [...]string{"raw", "sorted", "canon", "computable", "empty", "single", "built", "sorted-built", "descending"}[k]
+	return [...]string{"raw", "sorted", "canon", "computable", "empty", "single", "built", "sorted-built", "descending", "concatenation"}[k]
 }
 
 type OC struct {
@@ -117,6 +118,16 @@ func (s ClassSet) hasRaw() (OC, bool) {
 	return OC{}, false
 }
 
+// hasConcat: some class is a sorted list followed by another sorted list.
+func (s ClassSet) hasConcat() (OC, bool) {
+	for c := range s {
+		if c.K == ocConcat {
+			return c, true
+		}
+	}
+	return OC{}, false
+}
+
 // descOf maps every class to what a descending in-place sort makes of it.
 func descOf(s ClassSet, site string) ClassSet {
 	out := ClassSet{}
@@ -163,7 +174,7 @@ func sortedOf(s ClassSet, site string) ClassSet {
 		switch c.K {
 		case ocRaw, ocDesc:
 			out[OC{ocSorted, c.G}] = true
-		case ocBuilt:
+		case ocBuilt, ocConcat:
 			out[OC{ocSBuilt, c.G}] = true
 		default:
 			out[c] = true
@@ -1499,7 +1510,24 @@ func (it *oInterp) call(fn *ssa.Function, site ssa.Instruction, cc *ssa.CallComm
 						// continuing an append-map: the class was set when the first element went in
 						newcls[c] = true
 					default:
-						newcls[OC{ocBuilt, it.site(site)}] = true
+						// a non-empty ascending list with another ascending list spread behind it: two runs
+						runs := spread && (c.K == ocSorted || c.K == ocCanon || c.K == ocComp || c.K == ocSBuilt)
+						if runs {
+							src := st.classOf(args[1])
+							for x := range src {
+								if !(x.K == ocSorted || x.K == ocCanon || x.K == ocComp || x.K == ocSBuilt) {
+									runs = false
+								}
+							}
+							if len(src) == 0 {
+								runs = false
+							}
+						}
+						if runs {
+							newcls[OC{ocConcat, it.site(site)}] = true
+						} else {
+							newcls[OC{ocBuilt, it.site(site)}] = true
+						}
 					}
 				}
 			}
